@@ -161,6 +161,10 @@ type PeerOpts struct {
 	Token      string // token used for the control cipher and digests (may be wrong on purpose)
 	TLSConfig  *tls.Config
 	WS         bool // open the transport as a websocket (path /~!frp) first; TLS, if any, runs inside it
+	// RawKeys: privilege keys are bearer strings (OIDC) used verbatim instead of md5(token+timestamp);
+	// LoginKey is the one sent in Login, the "token" argument of Ping/OfferWorkConn is the key itself
+	RawKeys  bool
+	LoginKey string
 }
 
 // RecvMsg is one control message received by a peer.
@@ -335,6 +339,9 @@ func (p *Peer) Login(user, runID string, pool int) (M, error) {
 	ts := time.Now().Unix()
 	f := M{"version": "0.62.0", "os": "linux", "arch": "amd64", "user": user, "timestamp": ts,
 		"privilege_key": authKey(p.Opts.Token, ts), "run_id": runID, "pool_count": pool}
+	if p.Opts.RawKeys {
+		f["privilege_key"] = p.Opts.LoginKey
+	}
 	return p.LoginRaw(f)
 }
 
@@ -487,6 +494,9 @@ func (p *Peer) Ping(withKey bool, token string) error {
 		ts := time.Now().Unix()
 		f["timestamp"] = ts
 		f["privilege_key"] = authKey(token, ts)
+		if p.Opts.RawKeys {
+			f["privilege_key"] = token
+		}
 	}
 	return p.Send(tPing, f)
 }
@@ -511,6 +521,9 @@ func (p *Peer) OfferWorkConn(runID string, withKey bool, token string) (net.Conn
 		ts := time.Now().Unix()
 		f["timestamp"] = ts
 		f["privilege_key"] = authKey(token, ts)
+		if p.Opts.RawKeys {
+			f["privilege_key"] = token
+		}
 	}
 	if err := writeMsg(conn, tNewWorkConn, f); err != nil {
 		conn.Close()
